@@ -132,8 +132,16 @@ def pass_interface():
             problems.append("pass %s: no `&mut dyn AnalysisContext` parameter found" % e)
         c = sorted({x for n in names for x in re.findall(r"\b%s\s*\.\s*(\w+)\s*\(" % re.escape(n), text)})
         calls[e] = c
-        if [x for x in c if x != "template"]:
-            problems.append("pass %s calls context.%s (the model mirrors only template lookups)" % (e, c))
+        for n in names:       # the context must not travel further (a helper could call anything)
+            uses = len(re.findall(r"\b%s\b" % re.escape(n), text))
+            known = len(re.findall(r"\b%s\s*\.\s*\w+\s*\(" % re.escape(n), text)) \
+                + len(re.findall(r"\b%s\s*:\s*&mut dyn AnalysisContext" % re.escape(n), text))
+            if uses != known:
+                problems.append("pass %s: `%s` occurs %d times, only %d are the parameter or a method call" % (e, n, uses, known))
+        # is_function / is_template / underlying_str read the ASTs and the file library only (&self)
+        unmirrored = [x for x in c if x not in ("template", "is_template", "is_function", "underlying_str")]
+        if unmirrored:
+            problems.append("pass %s calls context.%s (the model mirrors only template lookups)" % (e, unmirrored))
     if methods != EXPECTED_CONTEXT_METHODS:
         problems.append("trait AnalysisContext has methods %s, the model and the harness assume %s" % (methods, EXPECTED_CONTEXT_METHODS))
     if not entries or len(free) + len(using) != len(entries):
@@ -236,10 +244,11 @@ def judge_definitions(project, truth, want, got):
     """want: the (kind, name) pairs written into the user files (sorted list);
     got: definitions analysed (a list, possibly with repetitions).  Every
     written definition has to be analysed exactly once, unless the parser stage
-    reported an error inside that definition (it is dropped with the error:
-    syntax_sugar_remover.rs) or an error located in its file while no
-    definition of that file was analysed (the file failed to parse); nothing
-    else may be analysed.  -> list of complaints"""
+    reported an error located inside that definition (it is dropped together
+    with the error: syntax_sugar_remover.rs; a file that fails to parse is
+    handled by not listing its definitions: the generator writes none, the
+    corpus witnesses list theirs by hand); nothing else may be analysed.
+    -> list of complaints"""
     what = []
     extra = sorted({x for x in got if x not in want})
     twice = sorted({x for x in got if got.count(x) > 1})
@@ -247,19 +256,16 @@ def judge_definitions(project, truth, want, got):
     if missing:
         ranges = def_ranges(project)
         locs = reported_drops(project, truth)
-        files_analysed = {ranges[x][0] for x in got if x in ranges}
         unexcused = []
         for x in missing:
             if x not in ranges:
                 unexcused.append(x)
                 continue
             f, b, e = ranges[x]
-            inside = any(lf == f and b <= off < e for lf, off in locs)
-            whole_file = f not in files_analysed and any(lf == f for lf, _ in locs)
-            if not (inside or whole_file):
-                unexcused.append(x)
+            if any(lf == f and b <= off < e for lf, off in locs):
+                STATS["excused"].add((project.tag, x, "error inside the definition"))
             else:
-                STATS["excused"].add((project.tag, x, "error inside the definition" if inside else "file failed to parse"))
+                unexcused.append(x)
         missing = unexcused
     if missing or extra or twice:
         what.append("not a permutation of the definitions of the user files: missing without a reported error %s, "
@@ -458,8 +464,8 @@ def run(ctx, proofs):
             "analysis_order_check": "on every run the analysis order logged by the binary, and the user keys of the in-process parse, are "
                                     "compared with the (kind, name) pairs the generator wrote into the files named on the command line "
                                     "(corpus: expect.user_defs): each exactly once, nothing else; a written definition may be missing only "
-                                    "if the parser stage reported an error located inside its text, or in its file while no definition of "
-                                    "that file was analysed; the generator's record is cross-checked by a textual scan of the sources",
+                                    "if the parser stage reported an error located inside its text; the generator's record is cross-checked "
+                                    "by a textual scan of the sources",
             "definitions_dropped_with_reported_error": [list(x) for x in sorted(STATS["excused"])][:20],
             "definitions_dropped_with_reported_error_count": len(STATS["excused"]),
             "runs_with_substituted_order": len([r for r in runs if r.get("order_substituted")]),
